@@ -5,12 +5,12 @@ C19 — text conflicts are reported exactly when conflict markers are written.
 
 Model of
 
-* `breezy/merge.py: Merge3Merger.text_merge` — the call of
-  `merge3.Merge3.merge_lines` with the *sentinel* start marker, the
-  `iter_merge3` post-pass (`line.startswith(start_marker)` sets the
-  `text_conflicts` flag and `line.replace(start_marker, b"<" * 7)` rewrites the
-  line), the conflict record and the `_dump_conflicts` / `_conflict_file`
-  helper files `.BASE/.THIS/.OTHER`;
+* `breezy/merge.py: Merge3Merger.text_merge` — the *sentinel* start marker,
+  extended with `!` until no BASE/OTHER/THIS line starts with it, the call of
+  `merge3.Merge3.merge_lines` with that marker, the `iter_merge3` post-pass
+  (`line.startswith(start_marker)` sets the `text_conflicts` flag and the line
+  becomes `b"<" * 7 + line[len(start_marker):]`), the conflict record and the
+  `_dump_conflicts` / `_conflict_file` helper files `.BASE/.THIS/.OTHER`;
 * the content decision of `_do_merge_contents` / `merge_contents` in front of
   it (`_three_way` on the three contents; text merge only when both sides
   changed differently; `BinaryFile` ⇒ contents conflict);
@@ -111,24 +111,28 @@ def mergeLines (start : Bytes) (baseMarker : Option Bytes) (nl : Bytes) : List R
       | .error e => .error e
       | .ok t => .ok (h ++ t)
 
-/-- `bytes.replace(pat, rep)` for a non-empty pattern: leftmost, non-overlapping.
-`skip` = number of bytes still to drop after a match. -/
-def replaceAux (pat rep : Bytes) : Nat → Bytes → Bytes
-  | _, [] => []
-  | 0, c :: cs =>
-    if pat.isPrefixOf (c :: cs) then rep ++ replaceAux pat rep (pat.length - 1) cs
-    else c :: replaceAux pat rep 0 cs
-  | n + 1, _ :: cs => replaceAux pat rep n cs
+/-- `while any(line.startswith(start_marker) …): start_marker += b"!"`.
+The loop ends at the latest when the marker is longer than every line; `fuel`
+is chosen accordingly (`freshMarker`), `extendMarker_fresh` proves it suffices. -/
+def extendMarker (lines : List Line) : Nat → Bytes → Bytes
+  | 0, m => m
+  | fuel + 1, m => if lines.any (fun l => m.isPrefixOf l) then extendMarker lines fuel (m ++ [33]) else m
 
-def replaceAll (pat rep s : Bytes) : Bytes := replaceAux pat rep 0 s
+def maxLen : List Line → Nat
+  | [] => 0
+  | l :: ls => max l.length (maxLen ls)
+
+/-- the start marker `text_merge` hands to merge3 for the given BASE, OTHER, THIS lines -/
+def freshMarker (base other this : List Line) : Bytes :=
+  extendMarker (base ++ other ++ this) (maxLen (base ++ other ++ this) + 1) sentinel
 
 /-- the body of `iter_merge3`'s loop for one line: (yielded line, sets the flag) -/
-def fixLine (l : Line) : Line × Bool :=
-  if sentinel.isPrefixOf l then (replaceAll sentinel lt7 l, true) else (l, false)
+def fixLine (marker : Bytes) (l : Line) : Line × Bool :=
+  if marker.isPrefixOf l then (lt7 ++ l.drop marker.length, true) else (l, false)
 
 /-- `iter_merge3`: yielded lines and the final value of `retval["text_conflicts"]` -/
-def iterMerge3 (lines : List Line) : List Line × Bool :=
-  (lines.map fun l => (fixLine l).1, lines.any fun l => (fixLine l).2)
+def iterMerge3 (marker : Bytes) (lines : List Line) : List Line × Bool :=
+  (lines.map fun l => (fixLine marker l).1, lines.any fun l => (fixLine marker l).2)
 
 structure Opts where
   reprocess : Bool
@@ -140,12 +144,14 @@ def baseMarkerOf (o : Opts) : Option Bytes :=
 
 /-- `Merge3Merger.text_merge` up to the file content: lines written to the file
 and the `text_conflicts` flag.  `this` = THIS lines (`a` of merge3). -/
-def textMerge (o : Opts) (this : List Line) (regions : List Region) : Except Err (List Line × Bool) :=
+def textMerge (o : Opts) (base this other : List Line) (regions : List Region) :
+    Except Err (List Line × Bool) :=
   if o.showBase && o.reprocess then .error .cantReprocessAndShowBase
   else
-    match mergeLines (withName sentinel nameA) (baseMarkerOf o) (newlineOf this) regions with
+    let marker := freshMarker base other this
+    match mergeLines (withName marker nameA) (baseMarkerOf o) (newlineOf this) regions with
     | .error e => .error e
-    | .ok lines => .ok (iterMerge3 lines)
+    | .ok lines => .ok (iterMerge3 marker lines)
 
 /-- what a reader of the file expects: the same rendering with `<<<<<<< TREE` as start marker -/
 def renderSpec (o : Opts) (this : List Line) (regions : List Region) : Except Err (List Line) :=
@@ -168,13 +174,13 @@ def Region.chosen : Region → List Line
   | .b ls => ls
   | .conflict _ ta _ => ta
 
-/-- explicit hypothesis of the equivalence: no input line that reaches the
-output starts with the sentinel -/
-def NoSentinel (showBase : Bool) (regions : List Region) : Prop :=
-  ∀ r ∈ regions, ∀ l ∈ r.emitted showBase, sentinel.isPrefixOf l = false
+/-- explicit hypothesis: the regions denote lines of the inputs (they are
+slices of BASE / THIS / OTHER — checked on every generated case) -/
+def FromInputs (showBase : Bool) (base this other : List Line) (regions : List Region) : Prop :=
+  ∀ r ∈ regions, ∀ l ∈ r.emitted showBase, l ∈ base ++ other ++ this
 
-instance (sb : Bool) (rs : List Region) : Decidable (NoSentinel sb rs) := by
-  unfold NoSentinel; infer_instance
+instance (sb : Bool) (b t o : List Line) (rs : List Region) : Decidable (FromInputs sb b t o rs) := by
+  unfold FromInputs; infer_instance
 
 /-- `osutils.split_lines`: split after every `\n` -/
 def splitLinesAux : Bytes → Bytes → List Line
@@ -210,7 +216,7 @@ def mergeFile (o : Opts) (base this other : List Line) (regions : List Region) :
     if isBinary base || isBinary other || isBinary this then
       .contentsConflict (joinLines base) (joinLines this) (joinLines other)
     else
-      match textMerge o this regions with
+      match textMerge o base this other regions with
       | .error e => .error e
       | .ok (lines, false) => .clean (joinLines lines)
       | .ok (lines, true) =>
@@ -266,20 +272,26 @@ def resolveText (w : Side) (s : Slot) : Except Err Slot :=
 (`suffix_to_remove = OTHER`) / `take_other` (`= THIS`), then `cleanup`
 (`associated_filenames` = `p.BASE`, `p.OTHER` only) and record removal.
 
-Literal: (1) the contents of `p.<remove>` are deleted; (2) the name that
-carries the file id is renamed to `p` — *whatever it now holds*. -/
+Literal: (1) the contents of `p.<remove>` are deleted; (2) if the file id sits
+on the helper just deleted and the other helper exists, the id is handed over
+to the helper that is kept; (3) the name that carries the file id is renamed
+to `p`. -/
 def resolveContents (w : Side) (s : Slot) : Slot :=
   -- (1)
   let s1 : Slot := match w with
     | .this => { s with hOther := none }
     | .other => { s with hThis := none }
-  -- (2) rename the versioned name to `p`
-  let s2 : Slot := match s1.idOn with
-    | .item => s1
-    | .hThis => { s1 with file := s1.hThis, hThis := none, idOn := .item }
-    | .hOther => { s1 with file := s1.hOther, hOther := none, idOn := .item }
-    | .hBase => { s1 with file := s1.hBase, hBase := none, idOn := .item }
-    | .nowhere => s1
+  -- (2)
+  let s1' : Slot := match w with
+    | .this => if s1.idOn = .hOther ∧ s1.hThis.isSome then { s1 with idOn := .hThis } else s1
+    | .other => if s1.idOn = .hThis ∧ s1.hOther.isSome then { s1 with idOn := .hOther } else s1
+  -- (3) rename the versioned name to `p`
+  let s2 : Slot := match s1'.idOn with
+    | .item => s1'
+    | .hThis => { s1' with file := s1'.hThis, hThis := none, idOn := .item }
+    | .hOther => { s1' with file := s1'.hOther, hOther := none, idOn := .item }
+    | .hBase => { s1' with file := s1'.hBase, hBase := none, idOn := .item }
+    | .nowhere => s1'
   -- cleanup + record removal
   { s2 with hBase := none, hOther := none, record := none }
 
